@@ -17,7 +17,7 @@ func init() {
 }
 
 func c07Modes(kind string, form string) []string {
-	m := []string{"safe", "unsafe", "reuse:C", "reuse:S", "reuse:SS", "reuse:T", "reuse=a", "reuse:reshape", "reuse:wrongsize"}
+	m := []string{"safe", "unsafe", "reuse:C", "reuse:S", "reuse:SS", "reuse:T", "reuse=a", "reuse:reshape", "reuse:wrongsize", "reuse:wrongtype"}
 	if form == "TT" {
 		m = append(m, "reuse=b")
 	}
@@ -116,6 +116,13 @@ func runC07(r *core.Run) {
 									}
 									c := ewCase{kind: ok.kind, op: ok.op, form: form, mode: mode, api: api, d: d, shape: shape, layA: la, layB: lb, vs: "id"}
 									ewRunCase(r, "C07", c, post)
+									// magnitudes at which the order of accumulation shows: the value delivered into a reuse or increment
+									// destination is the safe-mode value, computed and added the way Go computes it
+									if ok.kind == "arith" && (ok.op == "Add" || ok.op == "Sub") && d.IsFloat() && api == "func" && form == "TT" {
+										c.vs = "round"
+										ewRunCase(r, "C07", c, post)
+										c.vs = "id"
+									}
 									// integer division with zero divisors among the elements: a refusal is required in every mode; what
 									// happens to the destination of a call that is NOT refused is part of the recorded finding's model
 									if ok.op == "Div" && d.IsInteger() && api == "func" && (strings.HasPrefix(mode, "incr") || strings.HasPrefix(mode, "reuse:")) {
